@@ -11,6 +11,8 @@ def run(P, R, L):
     K.ord7_smallest_snapshot(P, R, L)
     R.clause("ROLE-1", "version edits produced by flush, compaction and trivial move carry smallest..largest in that order")
     K.role1(P, R, L)
+    R.clause("ROLE-3", "level roles of version edits: outputs at level+1, inputs of both levels deleted, trivial move level -> level+1")
+    K.role3_levels(P, R, L)
     R.clause("PAIR-3", "bounds of every output file are captured from the entries added to it")
     K.pair3(P, R, L)
     R.clause("ORD-3", "outputs are installed only without error; inputs are deleted only after installation")
